@@ -242,7 +242,7 @@ def run(chk, tier, seed, replay=None):
     chk.rule = ('(1) TLC: Channel.tla - child (stdout lines, fd-2 noise before or after, close stdout, header, '
                 'names; dies at any point with the line in flight cut), bounded pipes, parent main thread + stderr '
                 'drain thread + parser: CompleteIsExact, FaultIsError, Reaped and NoHang under fairness for 0 / 2 '
-                'announced names and pipe capacities 1 and 2; NoStderrThread (deadlock on a full stderr pipe), '
+                'announced names, pipe capacities 1 and 2, terminated and unterminated fd-2 noise; NoFreshLine (header glued to an unterminated line), NoStderrThread (deadlock on a full stderr pipe), '
                 'TrustTruncated, SpawnFailureUnrecorded and the look-alike environment give counterexamples. '
                 '(2) spec -> code: each fate is forced on the real runner - complete reports with 0 / 1 / 3 / 300 '
                 '(thorough 1000) failing ids spelled plain / unicode / with newline / CR / other separators / 3000 '
@@ -259,7 +259,7 @@ def run(chk, tier, seed, replay=None):
     else:
         for cfg in ('Channel_design', 'Channel_design0', 'Channel_design2'):
             chk.add_tlc(cfg, tlc.run('Channel', cfg, timeout=900))
-        for cfg in ('Channel_dev_NoStderrThread', 'Channel_dev_TrustTruncated',
+        for cfg in ('Channel_dev_NoFreshLine', 'Channel_dev_NoStderrThread', 'Channel_dev_TrustTruncated',
                     'Channel_dev_SpawnFailureUnrecorded', 'Channel_asbuilt'):
             res = tlc.run('Channel', cfg, timeout=600)
             chk.add_tlc(cfg, res, expect_ok=False)
